@@ -29,6 +29,7 @@ import random
 import types
 from pathlib import Path
 
+import basix
 import numpy as np
 import ufl
 
@@ -82,6 +83,25 @@ C10_THEOREMS = [
     "Ffcx.Codegen.genBlock_tensor_spec", "Ffcx.Codegen.tensor_equals_full",
     "Ffcx.Codegen.genBlock_tensor_spec1", "Ffcx.Codegen.tensor_equals_full1",
     "Ffcx.Codegen.famNamesOk_2", "Ffcx.Codegen.famNamesOk_3",
+    # stage 3: blocked / mixed spaces, Boolean check => hypotheses, rounding
+    "Ffcx.Codegen.diagonal_of_full_filtered", "Ffcx.Codegen.C10Example.diagonal_filter_overlap_counterexample",
+    "Ffcx.Codegen.tensorGroupB_sound", "Ffcx.Codegen.tensor_near_full",
+]
+# stage 3 (C01): the independent specification `quadSpec` and the composition with it
+SPEC_MODULE = "FfcxProofs.C01Link"
+SPEC_FILES = [str(_LEAN / f) for f in (
+    "FfcxModel/Codegen/SpecLink.lean", "FfcxProofs/C01Spec.lean",
+)]
+SPEC_THEOREMS = [
+    # FfcxProofs/C01Spec.lean
+    "Ffcx.Codegen.kernel_meets_spec", "Ffcx.Codegen.kernel_meets_spec_linked", "Ffcx.Codegen.partition_values_partial",
+    "Ffcx.Codegen.fw_is_factor", "Ffcx.Codegen.val_of_graphEquiv",
+    # FfcxProofs/C01Link.lean: Boolean checks => Prop hypotheses, translation validation of the partition
+    "Ffcx.Codegen.exprEqB_sound", "Ffcx.Codegen.nodeEqB_sound", "Ffcx.Codegen.cone_values",
+    "Ffcx.Codegen.fwFactorB_sound", "Ffcx.Codegen.hphi_of_links",
+    "Ffcx.Codegen.groupsOkB_sound", "Ffcx.Codegen.rank2GroupsB_sound", "Ffcx.Codegen.prefixOkB_sound",
+    "Ffcx.Codegen.argLinkB_sound", "Ffcx.Codegen.argOk_of_extents",
+    "Ffcx.Codegen.kernel_meets_spec_checked", "Ffcx.Codegen.LinkExample.applies",
 ]
 CODEGEN_FILES = [str(_LEAN / f) for f in (
     "FfcxModel/Codegen/Block.lean", "FfcxModel/Codegen/Spec.lean",
@@ -306,6 +326,24 @@ def tensor_table_error(td):
     return err, max(1.0, float(np.abs(full).max()))
 
 
+def _contract_bounds(entity_type, integral_type, celltype):
+    """(number of entities `entity_local_index` ranges over, number of quadrature permutations) — the
+    contract of `tabulate_tensor` (ufcx.h), from the reference cell alone."""
+    top = basix.topology(celltype)
+    tdim = len(top) - 1
+    n_ent = {"cell": 1, "facet": len(top[tdim - 1]) if tdim >= 1 else 1, "vertex": len(top[0]),
+             "ridge": len(top[tdim - 2]) if tdim >= 2 else 1}.get(entity_type, 1)
+    n_perm = 1
+    if integral_type == "interior_facet":
+        if tdim == 2:
+            n_perm = 2
+        elif tdim == 3:
+            n_perm = max(2 * len(f) for f in top[2])   # triangle facets: 6, quadrilateral facets: 8
+    elif entity_type == "ridge" and tdim == 3:
+        n_perm = 2
+    return n_ent, n_perm
+
+
 def _exc_name(ex):
     n = type(ex).__name__
     return n if n in _EXC else f"other:{n}"
@@ -337,7 +375,7 @@ def capture():
 
     def partition_rec(integral, gen, symbol, F, mode, lookup, run):
         """Describe a `generate_partition` call (before), run it, complete the description (after)."""
-        rec = {"kind": "partition", "integral": integral, "symbol": symbol.name, "Fobj": F}
+        rec = {"kind": "partition", "integral": integral, "symbol": symbol.name, "Fobj": F, "gen": id(gen)}
         pre = {}
         try:
             for i, attr in F.nodes.items():
@@ -394,7 +432,7 @@ def capture():
                              lambda: o_egp(self, symbol, F, mode))
 
     def gbp(self, quadrature_rule, domain, blockmap, blocklist):
-        rec = {"kind": "group"}
+        rec = {"kind": "group", "bmkey": tuple(tuple(int(i) for i in b) for b in blockmap)}
         try:
             rec["desc"] = group_sx(self, quadrature_rule, domain, blockmap, blocklist)
             rec["state"] = state_sx(self)
@@ -489,7 +527,7 @@ def capture():
         return o_opt(code, quadrature_rule)
 
     def gql(self, quadrature_rule, domain):
-        rec = {"kind": "quadloop", "groups": [], "rule": rule_sx(quadrature_rule)}
+        rec = {"kind": "quadloop", "groups": [], "rule": rule_sx(quadrature_rule), "gen": id(self)}
         try:  # what the IR attaches to the modified arguments (for the specification link)
             integrand = self.ir.expression.integrand[(domain, quadrature_rule)]
             rec["Fobj"] = integrand["factorization"]
@@ -501,6 +539,8 @@ def capture():
             rec["argtab"] = "(" + " ".join(tab) + ")"
         except Exception as ex:  # noqa: BLE001
             rec["argtab_error"] = f"{type(ex).__name__}: {ex}"
+        if getattr(quadrature_rule, "has_tensor_factors", False):
+            rec["tp_rule"] = quadrature_rule
         cur.append(rec)
         try:
             r = o_gql(self, quadrature_rule, domain)
@@ -510,6 +550,25 @@ def capture():
             rec["loop"] = [stmt_o(s) for s in r]
         except export.ExportError as ex:
             rec["unexportable"] = str(ex)
+        try:  # the accesses `get_var` returns after the partitions; table shapes; contract bounds
+            F = rec["Fobj"]
+            acc_tab, shapes = [], {}
+            for i, attr in F.nodes.items():
+                a = self.get_var(quadrature_rule, domain, attr["expression"])
+                if a is not None and not isinstance(a, (int, np.integer)):
+                    try:
+                        acc_tab.append(f"({int(i)} {export.expr(a)})")
+                    except export.ExportError:
+                        pass
+                tr = attr.get("tr")
+                if tr is not None and getattr(tr, "values", None) is not None and tr.values.ndim == 4:
+                    shapes[tr.name] = tuple(int(d) for d in tr.values.shape)
+            rec["access"] = "(" + " ".join(acc_tab) + ")"
+            rec["shapes"] = "(" + " ".join(f"({q(n)} ({' '.join(map(str, sh))}))" for n, sh in shapes.items()) + ")"
+            rec["bounds"] = _contract_bounds(str(self.ir.expression.entity_type),
+                                             str(self.ir.expression.integral_type), domain)
+        except Exception as ex:  # noqa: BLE001
+            rec["access_error"] = f"{type(ex).__name__}: {ex}"
         recs.append(rec)
         return r
 
@@ -843,6 +902,51 @@ def check_spec_links(chk, driver, recs, origin, stats):
         stats.setdefault("spec_link_failures", [])
         if not full and len(stats["spec_link_failures"]) < 6:
             stats["spec_link_failures"].append(f"{origin}: {flags}")
+        # the value links: the generated declarations compute the nodes of F, fw = access(factor)*w[iq];
+        # the table accesses stay inside the exported shapes (hypotheses of `kernel_meets_spec_checked`)
+        if "access" not in rec or "inter0" not in rec or "fw" not in rec:
+            _inc(stats, "values_link", "not-exported")
+            continue
+        # the piecewise temporaries of the whole kernel (the piecewise scope is shared by its rules)
+        pw = [st_ for r in recs if r["kind"] == "partition" and r.get("gen") == rec["gen"] and r["integral"]
+              and r["symbol"].startswith("sp_") and r.get("real", ("",))[0] == "ok" for st_ in r["real"][1]]
+        n_ent, n_perm = rec["bounds"]
+        req = (f"(values_link {gF} ({' '.join(g['desc'] for g in gs)}) {gs[0]['state']} {rec['access']} "
+               f"({' '.join(pw)}) ({' '.join(rec['inter0'])}) ({' '.join(rec['fw'])}) {rec['shapes']} {n_ent} {n_perm})")
+        rep = driver.ask(req)
+        chk.case(kind="codegen_values_link", key=None)
+        if rep[0] != "ok":
+            chk.disagree("values_link: driver error", {"origin": origin, "input": req[:3000], "model": rep, "impl": "ok"})
+            continue
+        vf = {r_[0]: r_[1:] for r_ in rep[1:]}
+        ok_all = all(vf[k] == ["true"] for k in ("values", "extents", "rank2", "closedR"))
+        # ALL Boolean hypotheses of `kernel_meets_spec_checked` on this real rule
+        gtxt = " ".join(g["desc"] for g in gs)
+        w1 = driver.ask(f"(loop_wf ({gtxt}) {gs[0]['state']} ({' '.join(rec['fw'])}))")
+        w2 = driver.ask(f"(prefix_wf ({' '.join(rec.get('dnames', []))}) ({' '.join(rec['fw'])}) ({' '.join(rec['inter0'])}) "
+                        f"({gtxt}) {gs[0]['state']})")
+        names = {}
+        for w_ in (w1, w2):
+            if w_[0] == "ok":
+                names.update({k: v for k, v in w_[1:]})
+        missing = [k for k in ("groups", "fwdecls", "fwlinked", "prefix", "ssa") if names.get(k) != "true"]
+        if not full:
+            missing.append("spec_link")
+        if not ok_all:
+            missing.append("values_link")
+        _inc(stats, "kernel_meets_spec_checked",
+             "all-boolean-hypotheses-hold" if not missing else "not-covered:" + ",".join(missing))
+        if ok_all:
+            _inc(stats, "values_link", "all-hold")
+        elif vf["values"] != ["true"] and vf["fws"] == ["true"] and all(vf[k] == ["true"] for k in ("extents", "rank2", "closedR")):
+            # the cone of a factor contains nodes outside the algebraic fragment: not covered by the theorem
+            _inc(stats, "values_link", "cone-not-covered:" + ",".join(sorted(vf["bad"])))
+        else:
+            _inc(stats, "values_link", "fails:" + ",".join(k for k in ("values", "fws", "extents", "rank2", "closedR")
+                                                           if vf[k] != ["true"]))
+            stats.setdefault("values_link_failures", [])
+            if len(stats["values_link_failures"]) < 6:
+                stats["values_link_failures"].append(f"{origin}: {vf}")
 
 
 # ================================================================================ real corpus
@@ -891,6 +995,166 @@ def extra_entries():
     ]
 
 
+def check_tensor_rules(chk, driver, recs, origin, stats):
+    """The quadrature rule of a sum-factorised kernel is the tensor product of its 1D factor rules
+    (`Ffcx.Quad.tensor2`, exactly over Rat; weights up to one rounding), and every factor is Basix's rule on the
+    interval."""
+    from fractions import Fraction
+    seen = set()
+    for rec in recs:
+        rule = rec.get("tp_rule") if rec["kind"] == "quadloop" else None
+        if rule is None or id(rule) in seen:
+            continue
+        seen.add(id(rule))
+        facs = rule.tensor_factors
+        req = "(tensor_rule " + " ".join(
+            "(" + " ".join(f"(({' '.join(sexp.rat(c) for c in np.atleast_1d(p))}) {sexp.rat(w)})" for p, w in zip(fp, fw)) + ")"
+            for fp, fw in facs) + ")"
+        rep = driver.ask(req)
+        chk.case(kind="codegen_tensor_rule", key=None)
+        ok = rep[0] == "ok" and len(rep) - 1 == len(rule.weights) == len(rule.points)
+        if ok:
+            for (mp, mw), rp, rw in zip(rep[1:], rule.points, rule.weights):
+                if [Fraction(c) for c in mp] != [Fraction(float(c)) for c in np.atleast_1d(rp)]:
+                    ok = False
+                exact = Fraction(mw)
+                if abs(Fraction(float(rw)) - exact) > abs(exact) * Fraction(1, 2 ** 51):
+                    ok = False
+        if not ok:
+            chk.disagree("sum-factorised quadrature rule is not the tensor product of its factor rules (Quad.tensor2)",
+                         {"origin": origin, "input": req[:2000], "model": str(rep)[:2000],
+                          "impl": [rule.points.tolist(), rule.weights.tolist()]})
+            continue
+        _inc(stats, "tensor_rules", f"rule==tensor{len(facs)}(factors)")
+        for fp, fw in facs:
+            n = len(fw)
+            found = None
+            for d in (2 * n - 1, 2 * n - 2, 2 * n - 3):
+                if d < 0:
+                    continue
+                for qt in (basix.QuadratureType.default, basix.QuadratureType.gauss_jacobi, basix.QuadratureType.gll):
+                    try:
+                        bp, bw = basix.make_quadrature(basix.CellType.interval, d, rule=qt)
+                    except Exception:  # noqa: BLE001
+                        continue
+                    if bp.shape == np.asarray(fp).reshape(n, -1).shape and np.array_equal(bp, np.asarray(fp).reshape(n, -1)) \
+                            and np.array_equal(bw, np.asarray(fw)):
+                        found = (d, qt.name)
+                        break
+                if found:
+                    break
+            if found:
+                _inc(stats, "tensor_rules", f"factor==basix.make_quadrature(interval,{found[1]})")
+            else:
+                chk.disagree("1D factor of a sum-factorised rule is not a Basix interval rule",
+                             {"origin": origin, "input": f"n={n}", "model": "basix.make_quadrature(interval, d)",
+                              "impl": [np.asarray(fp).tolist(), np.asarray(fw).tolist()]})
+
+
+# ================================================================================ full vs diagonal
+def diag_forms():
+    """Bilinear forms compiled twice (part=full, part=diagonal): scalar, blocked, mixed, interior-facet."""
+    import basix.ufl
+    from ufl import (Coefficient, FunctionSpace, Mesh, TestFunction, TestFunctions, TrialFunction, TrialFunctions, avg,
+                     dS, div, ds, dx, grad, inner, jump)
+
+    def scalar(cell, fam, deg):
+        def b():
+            m, V = corpus.space(cell, fam, deg)
+            u, v, f = TrialFunction(V), TestFunction(V), Coefficient(V)
+            return [f * inner(grad(u), grad(v)) * dx + inner(u, v) * dx + u * v * ds]
+        return b
+
+    def vector(cell, deg):
+        def b():
+            m, V = corpus.space(cell, "P", deg, shape=({"triangle": 2, "quadrilateral": 2, "tetrahedron": 3}[cell],))
+            u, v = TrialFunction(V), TestFunction(V)
+            return [inner(grad(u), grad(v)) * dx + div(u) * div(v) * dx + inner(u, v) * dx]
+        return b
+
+    def mixed(cell):
+        def b():
+            m, _ = corpus.space(cell, "P", 1)
+            el = basix.ufl.mixed_element([basix.ufl.element("P", cell, 2, shape=(2,)), basix.ufl.element("P", cell, 1)])
+            W = FunctionSpace(m, el)
+            (u, p), (v, q_) = TrialFunctions(W), TestFunctions(W)
+            return [inner(grad(u), grad(v)) * dx - p * div(v) * dx - q_ * div(u) * dx + p * q_ * dx]
+        return b
+
+    def dg(cell):
+        def b():
+            m, V = corpus.space(cell, "DP" if cell in ("triangle", "tetrahedron") else "DQ", 1)
+            u, v = TrialFunction(V), TestFunction(V)
+            return [jump(u) * jump(v) * dS + avg(u) * avg(v) * dS + u * v * dx]
+        return b
+
+    return [("diag_scalar_p2_tri", scalar("triangle", "P", 2)), ("diag_scalar_q1_quad", scalar("quadrilateral", "Q", 1)),
+            ("diag_vector_p1_tri", vector("triangle", 1)), ("diag_vector_p2_tri", vector("triangle", 2)),
+            ("diag_vector_p1_tet", vector("tetrahedron", 1)), ("diag_mixed_th_tri", mixed("triangle")),
+            ("diag_dg_tri", dg("triangle"))]
+
+
+def check_diag_pairs(chk, driver):
+    """Item: `diagonal_of_full_filtered` on real kernels.  Every bilinear form is compiled with part=full and
+    part=diagonal; the groups of the two compilations are paired (same quadrature loop, same scalar blockmap) and
+    Lean checks that the diagonal group is the coincident sublist of the full group and that every dropped block has
+    disjoint block maps (so it cannot touch the diagonal)."""
+    stats = chk.notes.setdefault("codegen", {})
+    for name, build in diag_forms():
+        both = {}
+        for part in ("full", "diagonal"):
+            recs, err = capture_entry(corpus.Entry(f"{name}:{part}", build, tags=("diag",), options={"part": part}))
+            if err is not None:
+                stats.setdefault("skipped", []).append(f"{name}:{part}: {type(err).__name__}: {str(err)[:80]}")
+                both = None
+                break
+            both[part] = recs
+        if both is None:
+            continue
+        qf = [r for r in both["full"] if r["kind"] == "quadloop"]
+        qd = [r for r in both["diagonal"] if r["kind"] == "quadloop"]
+        if len(qf) != len(qd) or any(a["rule"] != b["rule"] for a, b in zip(qf, qd)):
+            chk.disagree("full and diagonal compilations generate different quadrature loops", {"origin": name,
+                         "model": [r["rule"] for r in qf], "impl": [r["rule"] for r in qd], "input": name})
+            continue
+        for lf, ld in zip(qf, qd):
+            gd = {both["diagonal"][i]["bmkey"]: both["diagonal"][i] for i in ld["groups"]}
+            used = set()
+            for i in lf["groups"]:
+                gf = both["full"][i]
+                if "unexportable" in gf or gf["real"][0] != "ok" or len(gf["bmkey"]) != 2:
+                    continue
+                d = gd.get(gf["bmkey"])
+                if d is not None:
+                    used.add(gf["bmkey"])
+                req = f"(diag_pair {gf['desc']} {d['desc'] if d is not None and 'desc' in d else 'none'})"
+                rep = driver.ask(req)
+                chk.case(kind="codegen_diag_pair", key=None)
+                fl = {r_[0]: r_[1] for r_ in rep[1:]} if rep[0] == "ok" else {}
+                if rep[0] != "ok" or fl.get("sublist") != "true":
+                    chk.disagree("diagonal kernel's group is not the coincident sublist of the full kernel's group",
+                                 {"origin": name, "input": req[:4000], "model": rep, "impl": "generated by FFCx"})
+                    continue
+                _inc(stats, "diag_pairing", "groups-paired")
+                stats["diag_blocks_kept"] = stats.get("diag_blocks_kept", 0) + int(fl["kept"])
+                stats["diag_blocks_dropped"] = stats.get("diag_blocks_dropped", 0) + int(fl["dropped"])
+                if d is None:
+                    _inc(stats, "diag_pairing", "full-group-without-diagonal-group(all blocks dropped)")
+                if int(fl["dropped"]):
+                    _inc(stats, "diag_pairing", "with-dropped-blocks")
+                _inc(stats, "diag_pairing", "dropped-blocks-disjoint" if fl["disjoint"] == "true" else "DROPPED-BLOCK-OVERLAPS-DIAGONAL")
+                _inc(stats, "diag_pairing", "theorem-applies" if fl["pair"] == "true" and fl["injective"] == "true"
+                     else "theorem-does-not-apply")
+                if fl["disjoint"] != "true":
+                    chk.disagree("a block dropped by part=diagonal has overlapping, unequal block maps: diagonal entries are lost",
+                                 {"origin": name, "input": req[:4000], "model": rep, "impl": "generated by FFCx"})
+            extra = set(gd) - used
+            if extra:
+                chk.disagree("diagonal kernel has a group the full kernel has not", {"origin": name, "input": str(sorted(extra)),
+                                                                                       "model": "none", "impl": "group"})
+    return stats
+
+
 def capture_entry(entry):
     from . import ir_checks
     opts = pipeline.default_options(**entry.options)
@@ -918,6 +1182,7 @@ def check_blocks(chk, driver, entries):
             compare_record(chk, driver, rec, f"{entry.name}:{k}", stats)
         check_groups_fold(chk, driver, recs, entry.name, stats)
         check_spec_links(chk, driver, recs, entry.name, stats)
+        check_tensor_rules(chk, driver, recs, entry.name, stats)
         stats["real_blocks"] = stats.get("real_blocks", 0) + sum(1 for r in recs if r["kind"] in ("group", "eblock"))
     _finish_stats(stats)
     return stats
@@ -926,7 +1191,7 @@ def check_blocks(chk, driver, entries):
 def _finish_stats(stats):
     stats.pop("synthetic_calls", None)
     for k in ("branches", "side_conditions", "loop_side_conditions", "partition_ssa", "terminal_handlers", "tensor_tables",
-              "blockmaps", "exec_vs_spec", "spec_link", "diag_pairing", "tensor_rules", "synthetic_branches"):
+              "blockmaps", "exec_vs_spec", "spec_link", "values_link", "kernel_meets_spec_checked", "diag_pairing", "tensor_rules", "synthetic_branches"):
         if k in stats:
             stats[k] = dict(sorted(stats[k].items()))
 
@@ -1243,6 +1508,7 @@ def main(argv=None):
     chk = _StandaloneChk(a.seed)
     with lean.Driver("driver_codegen") as d:
         check_blocks(chk, d, corpus.fixed() + corpus.expressions() + extra_entries())
+        check_diag_pairs(chk, d)
         check_synthetic(chk, d, a.seed, a.synthetic)
     st = chk.notes["codegen"]
     if a.json:
@@ -1252,7 +1518,7 @@ def main(argv=None):
               f"synthetic: {st.get('synthetic')}  cases: {chk.cases}  distinct: {len(chk.keys)}  ({time.time() - t0:.1f} s)")
         print(f"partitions: {st.get('partitions')}  intermediates: {st.get('partition_intermediates')}")
         for k in ("branches", "side_conditions", "loop_side_conditions", "partition_ssa", "terminal_handlers", "tensor_tables",
-                  "blockmaps", "exec_vs_spec", "spec_link", "diag_pairing", "tensor_rules", "synthetic_branches"):
+                  "blockmaps", "exec_vs_spec", "spec_link", "values_link", "kernel_meets_spec_checked", "diag_pairing", "tensor_rules", "synthetic_branches"):
             print(f"-- {k}")
             for b, c in (st.get(k) or {}).items():
                 print(f"   {c:5d}  {b}")
